@@ -85,19 +85,16 @@ theorem documented_only (O : Oracle) (cx : Cx) (fx : Fx) (cls : String) (cfg : C
   unfold fromDict at h
   simp only [] at h
   split at h
-  · obtain ⟨vals, hv⟩ := hd
-    rw [hv] at h; cases h
   · split at h
-    · split at h
-      · cases h; rfl
-      · cases hr : unpackFields O { cx with ntAsDict := cfg.ntAsDict } cls cfg fs _ with
-        | ok r => rw [hr] at h; cases h
-        | error e' =>
-          rw [hr] at h
-          have : e' = e := by simpa [bind, Except.bind] using h
-          subst this
-          exact unpackFields_documented O _ cls cfg fs _ e' hi hr
     · cases h; rfl
+    · cases hr : unpackFields O { cx with ntAsDict := cfg.ntAsDict } cls cfg fs _ with
+      | ok r => rw [hr] at h; cases h
+      | error e' =>
+        rw [hr] at h
+        have : e' = e := by simpa [bind, Except.bind] using h
+        subst this
+        exact unpackFields_documented O _ cls cfg fs _ e' hi hr
+  · cases h; rfl
 
 /-- what can go wrong at one field, given the input mapping -/
 inductive FieldBad (O : Oracle) (cx : Cx) (cls : String) (cfg : Cfg) (kvs : List (V × V)) (f : FieldDef) (t : Ty) : Exc → Prop
